@@ -257,17 +257,24 @@ Definition module_of (src : str) : option str :=
     match name with [] => None | _ => Some name end
   else None.
 
+(** the part of Read_str after tokenize: one form, and nothing left over *)
+Definition read_all (m : option str) (ph : option (list (str * val)))
+           (ext : option (str -> list val -> outcome val)) (ts : list token) : outcome val :=
+  match ts with
+  | [] => Err (VGoErr (s_ "<empty line>"))
+  | _ :: _ =>
+      let* (v, rest) := read_form m ph ext (S (length ts)) ts in
+      match rest with
+      | [] => Ok v
+      | _ :: _ => rerr "not all tokens where parsed" None
+      end
+  end.
+
 (** reader.Read_str(str, cursor, placeholderValues, ns) *)
 Definition read_str (cursor_module : option str) (ph : option (list (str * val)))
            (ext : option (str -> list val -> outcome val)) (src : str) : outcome val :=
   let m := match cursor_module with Some x => Some x | None => module_of src end in
   match tokenize src with
   | None => rerr "invalid token" None
-  | Some [] => Err (VGoErr (s_ "<empty line>"))
-  | Some ts =>
-      let* (v, rest) := read_form m ph ext (S (length ts)) ts in
-      match rest with
-      | [] => Ok v
-      | _ :: _ => rerr "not all tokens where parsed" None
-      end
+  | Some ts => read_all m ph ext ts
   end.
